@@ -4593,6 +4593,20 @@ def check_C20(res):
         for v in second.violations:
             if sig(v) in seen:
                 res.violations.append(v)
+    # "TLS changes the transport only": the transport flag has ONE reader, WHOIS (theorems C20_transport_fixed_at_accept,
+    # C20_whois_secure_adds_only_671); the readers are counted in the model text and in the source on every run
+    import glob as _glob
+    readers = {}
+    for f in sorted(_glob.glob("/repo/src/**/*.rs", recursive=True)):
+        src = open(f).read().split("#[cfg(test)]")[0]
+        k = len(re.findall(r"\.is_secure\(\)", src))
+        if k:
+            readers[os.path.relpath(f, "/repo/src")] = k
+    model_readers = sum(1 for l in open(os.path.join(irc.VERIF, "coq", "theories", "Handlers.v")) if "c_secure" in l)
+    want_readers = {"state/rest_cmds.rs": 1, "state/structs.rs": 1}
+    if readers != want_readers or model_readers != 1:
+        res.violation("the transport flag (is_secure) is read at %r in the source and %d time(s) in the model's handlers; the theorems cover one reader, WHOIS (expected %r / 1)" % (
+            readers, model_readers, want_readers), {"kind": "tie", "note": "C20_whois_secure_adds_only_671 is about the single reader"}, found=False)
     # behaviour under random configurations, against the model
     prof = {"weights": dict(JOIN=14, PART=8, OPER=5, PRIVMSG=4, MODE=4, NICK=2, MISC=2, WHOIS=2, UMODE=2), "p_users": 0.6, "p_operators": 0.7, "p_channels": 0.8,
             "p_default_mode": 0.6, "p_max_joins": 0.7, "p_password": 0.4}
